@@ -427,6 +427,16 @@ func c04SingleBox(r *sim.Run, disk []byte) {
 			r.Fault("box-size-deflated")
 		}
 	}
+	if t.Chance(200) {
+		// the box is not the last thing in the buffer: bytes of a following box lie behind it (a decoder that trusts a
+		// count more than its own box size reads on into them)
+		tail := []byte{0x02, 0, 0, 0, 'm', 'd', 'a', 't', 0xff, 0xff, 0xff, 0xff, 0x7f, 0xff, 0xff, 0xff}
+		if t.Bool() {
+			tail = append([]byte{0, 0, 0, 16, 'f', 'r', 'e', 'e', 0x40, 0, 0, 0, 0, 0, 0, 0}, tail...)
+		}
+		raw = append(raw, tail...)
+		r.Fault("box-followed-by-data")
+	}
 	n := len(raw)
 	var box mp4.Box
 	var err error
@@ -476,7 +486,7 @@ func init() {
 		Setup:       c04Setup,
 		Run:         c04Run,
 		FatalIsViol: true,
-		WantFaults:  []string{"unit-dropped", "unit-duplicated", "unit-reordered", "unit-moved", "unit-spliced", "unit-table-shrunk", "unit-largesize-header", "sizes-left-unrepaired", "stored-bitflip", "stored-u32=ffffffff", "stored-zeroed-range", "stored-misdirected-range", "stored-largesize-huge", "stored-type-rewritten", "disk-truncated", "read-eio", "seek-eio", "read-short", "read-zero"},
+		WantFaults:  []string{"unit-dropped", "unit-duplicated", "unit-reordered", "unit-moved", "unit-spliced", "unit-table-shrunk", "unit-largesize-header", "sizes-left-unrepaired", "stored-bitflip", "stored-u32=ffffffff", "stored-zeroed-range", "stored-misdirected-range", "stored-largesize-huge", "stored-type-rewritten", "box-followed-by-data", "disk-truncated", "read-eio", "seek-eio", "read-short", "read-zero"},
 		WantProbes:  []string{"decode-accepted-faulty-input", "decode-rejected", "single-box-accepted"},
 	})
 }
